@@ -488,10 +488,69 @@ fn fixed_file_decoys() -> Vec<Value> {
     out
 }
 
+
+// ------------------------------------------------------------------------------------------------ a terminal as standard output
+
+/// What the command prints does not depend on where it prints it: with standard output on a pseudo-terminal (raw mode)
+/// the bytes and the exit status are those of the run into a pipe.
+fn check_tty(case: &Value, obs: &mut Obs) -> Result<(), String> {
+    let rule_text = case["rule_text"].as_str().unwrap_or("");
+    let data_text = case["data_text"].as_str().unwrap_or("");
+    let profile = if case["release"].as_bool().unwrap_or(false) { "release" } else { "dev" };
+    if is_option_syntax(rule_text) || rule_text.contains('\0') || is_option_syntax(data_text) || data_text.contains('\0') || data_text == "-" {
+        obs.skip("U12");
+        return Ok(());
+    }
+    let bin = match cli::bin(profile) {
+        Some(b) => b,
+        None => return Err("oracle_broken: CLI binary missing".into()),
+    };
+    let want = library(rule_text, data_text, obs)?;
+    let piped = cli::run(&bin, rule_text, &Channel::Arg(data_text.to_string()))?;
+    let tty = match cli::run_tty(&bin, rule_text, data_text)? {
+        Some(t) => t,
+        None => {
+            obs.skip("no pseudo-terminal available");
+            return Ok(());
+        }
+    };
+    obs.evals += 2;
+    if tty.timed_out {
+        return Err(format!("the command did not finish with standard output on a terminal: rule text {:?}, data text {:?}", rule_text, data_text));
+    }
+    if tty.code != piped.code || tty.stdout != piped.stdout {
+        return Err(format!(
+            "the output depends on whether standard output is a terminal: exit {:?} stdout {:?} into a pipe, exit {:?} stdout {:?} on a pseudo-terminal ({} build): rule text {:?}, data text {:?}",
+            piped.code,
+            String::from_utf8_lossy(&piped.stdout).chars().take(200).collect::<String>(),
+            tty.code,
+            String::from_utf8_lossy(&tty.stdout).chars().take(200).collect::<String>(),
+            profile,
+            rule_text,
+            data_text
+        ));
+    }
+    compare(&tty, &want, &format!("{}, standard output on a pseudo-terminal", profile), rule_text, data_text)?;
+    obs.nt(if want.ok { "value printed on a terminal" } else { "failure on a terminal" });
+    Ok(())
+}
+
 pub fn property() -> Property {
     Property {
         id: "C18",
         subs: vec![
+            Sub {
+                name: "terminal",
+                about: "the 40 corner text pairs and generated texts with the command's standard output attached to a pseudo-terminal (raw mode) instead of a pipe: exit status and bytes written must be identical to the piped run and agree with the library - no pretty-printing, colour or paging for interactive use. Skipped (and counted) if the system hands out no pseudo-terminal.",
+                nontrivial: "every compared case.",
+                strategy: Some(gen_texts),
+                fixed: Some(fixed_texts),
+                fixed_exhaustive: false,
+                check: check_tty,
+                quick: 300,
+                thorough: 10_000,
+                small_stack: false,
+            },
             Sub {
                 name: "file_decoys",
                 about: "the arguments are texts, never file names: the command runs in a working directory that holds files named exactly like the argument (data.json, @data.json, rule.json, null, 1, x, nul, {, [1, true, ... - each containing a valid rule) and must still do what the library does with the argument as text, as data argument, as rule argument and with the same text on stdin.",
